@@ -102,7 +102,10 @@ pub fn eval(input: &str) -> String {
             stream_handle = None;
             ObjectDesc::create_from_buffer(content.clone(), "a/b", &url, false, tc).unwrap()
         } else {
-            let cs = Box::new(ChunkStream { data: content.clone(), pos: 0, sched: reads.clone(), i: 0, armed: false });
+            // "stream@<hex>": the stream is handed over at that position, not at its start (a caller that
+            // sniffed a header, a cursor just filled): the object is still the whole stream
+            let start = t[7].split('@').nth(1).and_then(|x| usize::from_str_radix(x, 16).ok()).unwrap_or(0).min(content.len());
+            let cs = Box::new(ChunkStream { data: content.clone(), pos: start, sched: reads.clone(), i: 0, armed: false });
             stream_handle = Some(Box::as_ref(&cs) as *const ChunkStream as *mut ChunkStream);
             ObjectDesc::create_from_stream(cs, "a/b", &url, false, tc).unwrap()
         };
@@ -201,7 +204,10 @@ fn gen(args: &Args, emit: &mut dyn FnMut(String), streams: bool) {
                                         2 => (0..l + 2).map(|_| format!("{:x}", rng.range(1, 9))).collect(),
                                         _ => vec![format!("{:x}", l + 10)],
                                     };
-                                    emit(format!("E {} {:x} {:x} {:x} {:x} {} stream {} - {}", fec, e, b, parity, w, closable, hex(&c), sched.join(",")));
+                                    {
+                let src = if rng.chance(1, 2) { format!("stream@{:x}", rng.below(c.len() as u64 + 2)) } else { "stream".to_string() };
+                emit(format!("E {} {:x} {:x} {:x} {:x} {} {} {} - {}", fec, e, b, parity, w, closable, src, hex(&c), sched.join(",")));
+            }
                                 }
                             }
                         }
@@ -230,7 +236,10 @@ fn gen(args: &Args, emit: &mut dyn FnMut(String), streams: bool) {
             emit(format!("E {} {:x} {:x} {:x} {:x} {} buf {} - -", fec, e, b, parity, w, closable, hex(&c)));
         } else if l > 0 {
             let sched: Vec<String> = (0..l + 2).map(|_| format!("{:x}", rng.range(1, 2 * e as u64 + 3))).collect();
-            emit(format!("E {} {:x} {:x} {:x} {:x} {} stream {} - {}", fec, e, b, parity, w, closable, hex(&c), sched.join(",")));
+            {
+                let src = if rng.chance(1, 2) { format!("stream@{:x}", rng.below(c.len() as u64 + 2)) } else { "stream".to_string() };
+                emit(format!("E {} {:x} {:x} {:x} {:x} {} {} {} - {}", fec, e, b, parity, w, closable, src, hex(&c), sched.join(",")));
+            }
         }
     }
 }
